@@ -5,6 +5,9 @@
  * relative to the object they point into (C+off = the PCondVariable block, M+off = the PMutex
  * block), so "the mutex pointer handed to pthread_cond_wait is the address p_mutex_lock handed to
  * pthread_mutex_lock" is visible in the answers and checked directly by `ident`.
+ * There are TWO live objects of each kind (selectors `obj` and `obj2`, printed C+off / C2+off and
+ * M+off / M2+off): a wrapper that remembers an object from an earlier call, or keeps state outside
+ * the object it is given, shows up as a pointer into the wrong object (`ident2` checks it directly).
  * The library prints its P_ERROR texts on stdout: stdout is redirected to stderr, the protocol
  * goes to a private copy of the original descriptor. */
 #include <plibsys.h>
@@ -57,8 +60,8 @@ static ppointer my_malloc (psize n) {
 static ppointer my_realloc (ppointer p, psize n) { return realloc (p, n); }
 static void my_free (ppointer p) { if (armed && p == last_blk) last_freed = 1; free (p); }
 
-static PCondVariable *C; static size_t Csize;
-static PMutex *M; static size_t Msize;
+static PCondVariable *C, *C2; static size_t Csize;
+static PMutex *M, *M2; static size_t Msize;
 /* blocks the pointers are printed relative to (the live objects, or the block `new` just made) */
 static const char *cbase, *mbase; static size_t cbsize, mbsize;
 
@@ -67,6 +70,8 @@ static void pr_ptr (const void *p) {
 	if (p == NULL) fprintf (out, "NULL");
 	else if (cbase && q >= cbase && q < cbase + cbsize) fprintf (out, "C+%ld", (long) (q - cbase));
 	else if (mbase && q >= mbase && q < mbase + mbsize) fprintf (out, "M+%ld", (long) (q - mbase));
+	else if (C2 && q >= (const char *) C2 && q < (const char *) C2 + Csize) fprintf (out, "C2+%ld", (long) (q - (const char *) C2));
+	else if (M2 && q >= (const char *) M2 && q < (const char *) M2 + Msize) fprintf (out, "M2+%ld", (long) (q - (const char *) M2));
 	else fprintf (out, "?");
 }
 
@@ -85,11 +90,17 @@ static void end (void) { armed = 0; alloc_fail = 0; }
 
 static void pr_bool (pboolean r) { fprintf (out, "ret=%s ", r == TRUE ? "TRUE" : r == FALSE ? "FALSE" : "?"); pr_calls (); fprintf (out, "\n"); }
 
+/* selector: 0 = first object, 1 = NULL, 2 = second object */
 static int selp (const char *s, int *isnull) {
 	if (!strcmp (s, "obj")) { *isnull = 0; return 1; }
 	if (!strcmp (s, "null")) { *isnull = 1; return 1; }
+	if (!strcmp (s, "obj2")) { *isnull = 2; return 1; }
 	return 0;
 }
+static PCondVariable *pc_ (int k) { return k == 1 ? NULL : k == 2 ? C2 : C; }
+static PMutex *pm_ (int k) { return k == 1 ? NULL : k == 2 ? M2 : M; }
+static const void *arg_of (int i) { return ncalls ? calls[0].a[i] : NULL; }
+static int inside (const void *p, const void *b, size_t n) { return p != NULL && (const char *) p >= (const char *) b && (const char *) p < (const char *) b + n; }
 
 static void use_live (void) { cbase = (const char *) C; cbsize = Csize; mbase = (const char *) M; mbsize = Msize; }
 
@@ -101,8 +112,9 @@ int main (void) {
 	p_mem_set_vtable (&vt);
 	/* the two live objects; their native handles are never really initialised: every native
 	 * entry point that could touch them is wrapped */
-	begin (0); C = p_cond_variable_new (); Csize = last_size; M = p_mutex_new (); Msize = last_size; end ();
-	if (!C || !M) { fprintf (out, "setup-failed\n"); return 1; }
+	begin (0); C = p_cond_variable_new (); Csize = last_size; M = p_mutex_new (); Msize = last_size;
+	C2 = p_cond_variable_new (); M2 = p_mutex_new (); end ();
+	if (!C || !M || !C2 || !M2) { fprintf (out, "setup-failed\n"); return 1; }
 	while (fgets (line, sizeof line, stdin)) {
 		a1[0] = a2[0] = a3[0] = 0;
 		int n = sscanf (line, "%31s %31s %31s %31s", op, a1, a2, a3);
@@ -110,17 +122,17 @@ int main (void) {
 		if (n < 1) continue;
 		use_live ();
 		if (!strcmp (op, "wait") && n == 4 && selp (a1, &cn) && selp (a2, &mn)) {
-			begin (atoi (a3)); pboolean r = p_cond_variable_wait (cn ? NULL : C, mn ? NULL : M); end (); pr_bool (r);
+			begin (atoi (a3)); pboolean r = p_cond_variable_wait (pc_ (cn), pm_ (mn)); end (); pr_bool (r);
 		} else if (!strcmp (op, "signal") && n == 3 && selp (a1, &cn)) {
-			begin (atoi (a2)); pboolean r = p_cond_variable_signal (cn ? NULL : C); end (); pr_bool (r);
+			begin (atoi (a2)); pboolean r = p_cond_variable_signal (pc_ (cn)); end (); pr_bool (r);
 		} else if (!strcmp (op, "bcast") && n == 3 && selp (a1, &cn)) {
-			begin (atoi (a2)); pboolean r = p_cond_variable_broadcast (cn ? NULL : C); end (); pr_bool (r);
+			begin (atoi (a2)); pboolean r = p_cond_variable_broadcast (pc_ (cn)); end (); pr_bool (r);
 		} else if (!strcmp (op, "lock") && n == 3 && selp (a1, &mn)) {
-			begin (atoi (a2)); pboolean r = p_mutex_lock (mn ? NULL : M); end (); pr_bool (r);
+			begin (atoi (a2)); pboolean r = p_mutex_lock (pm_ (mn)); end (); pr_bool (r);
 		} else if (!strcmp (op, "trylock") && n == 3 && selp (a1, &mn)) {
-			begin (atoi (a2)); pboolean r = p_mutex_trylock (mn ? NULL : M); end (); pr_bool (r);
+			begin (atoi (a2)); pboolean r = p_mutex_trylock (pm_ (mn)); end (); pr_bool (r);
 		} else if (!strcmp (op, "unlock") && n == 3 && selp (a1, &mn)) {
-			begin (atoi (a2)); pboolean r = p_mutex_unlock (mn ? NULL : M); end (); pr_bool (r);
+			begin (atoi (a2)); pboolean r = p_mutex_unlock (pm_ (mn)); end (); pr_bool (r);
 		} else if ((!strcmp (op, "newc") || !strcmp (op, "newm")) && n == 3) {
 			int isc = op[3] == 'c';
 			last_blk = NULL; last_size = 0; last_freed = 0;
@@ -132,10 +144,10 @@ int main (void) {
 			if (o != NULL && o != last_blk) fprintf (out, "returned-object-is-not-the-allocated-block\n");
 			/* dispose of the temporary object without going through the wrappers' log */
 			if (o != NULL) free (o);
-		} else if ((!strcmp (op, "freec") || !strcmp (op, "freem")) && n == 3 && selp (a1, &cn)) {
+		} else if ((!strcmp (op, "freec") || !strcmp (op, "freem")) && n == 3 && selp (a1, &cn) && cn != 2) {
 			int isc = op[4] == 'c';
 			void *o = NULL;
-			if (!cn) {          /* a fresh object to free */
+			if (cn != 1) {      /* a fresh object to free */
 				begin (0); o = isc ? (void *) p_cond_variable_new () : (void *) p_mutex_new (); end ();
 				if (isc) { cbase = o; cbsize = last_size; } else { mbase = o; mbsize = last_size; }
 			}
@@ -156,12 +168,28 @@ int main (void) {
 			int ms = wm != NULL && wm == lm && wm == um && (const char *) wm >= (const char *) M && (const char *) wm < (const char *) M + Msize;
 			int cs = wc != NULL && wc == sc && wc == bc && (const char *) wc >= (const char *) C && (const char *) wc < (const char *) C + Csize;
 			fprintf (out, "ident mutex=%s cond=%s\n", ms ? "same" : "DIFFERENT", cs ? "same" : "DIFFERENT");
+		} else if (!strcmp (op, "ident2") && n == 1) {
+			/* the same oracle across the two objects of each kind: a call on (C, M2) must address M2's handle
+			 * (the pointer p_mutex_lock (M2) uses) and C's, a call on (C2, M) must address C2's and M's;
+			 * nothing may point into the object that was NOT passed */
+			const void *w1c, *w1m, *w2c, *w2m, *l1, *l2, *u2, *s1, *s2, *b2;
+			begin (0); p_cond_variable_wait (C, M2); w1c = arg_of (0); w1m = arg_of (1); end ();
+			begin (0); p_cond_variable_wait (C2, M); w2c = arg_of (0); w2m = arg_of (1); end ();
+			begin (0); p_mutex_lock (M); l1 = arg_of (0); end ();
+			begin (0); p_mutex_lock (M2); l2 = arg_of (0); end ();
+			begin (0); p_mutex_unlock (M2); u2 = arg_of (0); end ();
+			begin (0); p_cond_variable_signal (C); s1 = arg_of (0); end ();
+			begin (0); p_cond_variable_signal (C2); s2 = arg_of (0); end ();
+			begin (0); p_cond_variable_broadcast (C2); b2 = arg_of (0); end ();
+			int ms = inside (w1m, M2, Msize) && w1m == l2 && w1m == u2 && inside (w2m, M, Msize) && w2m == l1 && l1 != l2;
+			int cs = inside (w1c, C, Csize) && w1c == s1 && inside (w2c, C2, Csize) && w2c == s2 && w2c == b2 && s1 != s2;
+			fprintf (out, "ident2 mutex=%s cond=%s\n", ms ? "same" : "DIFFERENT", cs ? "same" : "DIFFERENT");
 		} else if (!strcmp (op, "reset") && n == 1) {
 			fprintf (out, "ok\n");
 		} else fprintf (out, "bad-op\n");
 		fflush (out);
 	}
 	/* the live objects were never natively initialised: release the blocks only */
-	free (C); free (M);
+	free (C); free (M); free (C2); free (M2);
 	return 0;
 }
